@@ -300,7 +300,7 @@ func runBash(c N, dir string, self string, timeout time.Duration) (obs, string, 
 	o.Sha = fmt.Sprintf("%x", sum[:8])
 	sf := filepath.Join(dir, "main.sh")
 	os.WriteFile(sf, []byte(script), 0o755)
-	wd := filepath.Join(dir, "wd")
+	wd := filepath.Join(dir, "w d") // a blank in the path of the working directory: nothing a script does may depend on it
 	os.MkdirAll(wd, 0o755)
 	bin := filepath.Join(dir, "bin")
 	os.MkdirAll(bin, 0o755)
